@@ -284,14 +284,19 @@ func eqSlice[T comparable](a, b []T) bool {
 // canonical strict decoding of transactions
 
 // judgeTx applies the canonical-form monitor to one byte string.
+//
+// nt=true: one call per interesting input; the input is staged, counted and keyed here.
+// nt=false: inner loop of an exhaustive sweep; the caller counts.
 func judgeTx(k *mon.Case, in []byte, kind string, nt bool) bool {
-	k.Eval(1)
-	k.Stage(in)
+	if nt {
+		k.Eval(1)
+		k.Stage(in)
+	}
 	tx := &blockchain.Transaction{}
 	err := tx.DecodeStrict(in)
 	if err != nil {
-		k.Count("tx_strict_rejected:"+kind, 1)
 		if nt {
+			k.Count("tx_strict_rejected:"+kind, 1)
 			k.Nontrivial(kind + "/rejected/" + errClass(err))
 		}
 		// NewTransaction must agree
@@ -300,8 +305,8 @@ func judgeTx(k *mon.Case, in []byte, kind string, nt bool) bool {
 		}
 		return false
 	}
-	k.Count("tx_strict_accepted:"+kind, 1)
 	if nt {
+		k.Count("tx_strict_accepted:"+kind, 1)
 		k.Nontrivial(kind + "/accepted")
 	}
 	re := tx.Encode()
@@ -411,7 +416,7 @@ func txExhaustive(c *mon.Ctx) {
 			k.Inconclusive("tokeniser")
 			return
 		}
-		if !judgeTx(k, enc, "canonical", false) {
+		if !judgeTx(k, enc, "canonical", true) {
 			k.Violation("tx-strict:rejects-own-encoding", "Transaction.DecodeStrict rejects Transaction.Encode output", map[string]any{"encoded": hx(enc)})
 			return
 		}
@@ -447,6 +452,9 @@ func txExhaustive(c *mon.Ctx) {
 				rej++
 			}
 		})
+		k.Eval(acc + rej)
+		k.Count("tx_strict_accepted:exhaustive:"+name, acc)
+		k.Count("tx_strict_rejected:exhaustive:"+name, rej)
 		k.Nontrivial(fmt.Sprintf("%s/acc=%v/rej=%v", name, acc > 0, rej > 0))
 	})
 }
